@@ -198,7 +198,7 @@ func HC17_DumpLoad() {
 		op := vChoice("suffix", 3)
 		k := 0
 		if op == 1 {
-			k = vChoice("which", 2+2*vTier())
+			k = vChoice("which", 2)
 		}
 		hSuffix(ws, &all, &nall, op, k)
 		for i := 0; i < nall; i++ {
